@@ -192,7 +192,7 @@ func report(id, tier string, seed int, cfg *Config, hdir string, results []*Entr
 	}
 
 	// counterexamples: replay natively
-	replayBase := filepath.Join(verifDir, "evidence", "replays", id)
+	replayBase := filepath.Join(evidenceDir, "replays", id)
 	os.RemoveAll(replayBase)
 	confirmed := 0
 	nrep := 0
@@ -294,7 +294,7 @@ func report(id, tier string, seed int, cfg *Config, hdir string, results []*Entr
 		if _, ok := blobCache[file]; !ok {
 			blobCache[file] = gitBlobHash(file)
 		}
-		fnList = append(fnList, map[string]string{"fn": f, "file": strings.TrimPrefix(file, "/repo/"), "blob": blobCache[file]})
+		fnList = append(fnList, map[string]string{"fn": f, "file": strings.TrimPrefix(file, repoDir+"/"), "blob": blobCache[file]})
 	}
 	assumeList := []string{"go/ssa (x/tools v0.29.0) SSA construction is faithful to the Go semantics of /repo's source", "cvc5 1.0.3 / z3 4.8.12 / z3 5.1.0 answers are sound", "byte strings are SMT strings over characters 0..255"}
 	for a := range assumptions {
@@ -334,9 +334,9 @@ func report(id, tier string, seed int, cfg *Config, hdir string, results []*Entr
 		"wall_s":      round(time.Since(t0).Seconds()),
 		"violations":  confirmed,
 	}
-	os.MkdirAll(filepath.Join(verifDir, "evidence"), 0755)
+	os.MkdirAll(evidenceDir, 0755)
 	data, _ := json.MarshalIndent(ev, "", " ")
-	os.WriteFile(filepath.Join(verifDir, "evidence", id+".json"), data, 0644)
+	os.WriteFile(filepath.Join(evidenceDir, id+".json"), data, 0644)
 
 	fmt.Printf("SUMMARY property=%s tier=%s paths=%d obligations=%d discharged=%d undecided=%d violations=%d known=%d validated_traces=%d solver_s=%.1f wall_s=%.1f\n",
 		id, tier, paths, obligations, discharged, len(undecided), confirmed, len(knownHit), validated, solverS, time.Since(t0).Seconds())
